@@ -287,6 +287,8 @@ struct RunObs {
 fn handwritten() -> Vec<(&'static str, String)> {
     let v: Vec<(&str, &str)> = vec![
         ("straight", "a = set 1\nb = set 2\nc = set 3\nd = set 4"),
+        ("alias-of-function", "fn work\ni = calc ${i} + 1\nj = set ${i}\nk = set 3\nend\nalias go work\ngo\nz = set done"),
+        ("alias-of-function-forever", "fn spin\nwhile true\ni = calc ${i} + 1\nend\nend\nalias go spin\ngo\nz = set never"),
         ("nested-run-sharing-the-flag", "a = set 1\nsub \"b = set 1\" \"c = set 2\" \"d = set 3\"\ne = set 5\nf = set 6"),
         ("nested-run-in-a-loop", "while less_than ${i} 3\ni = calc ${i} + 1\nsub \"b = set 1\" \"sub \\\"c = set 2\\\" \\\"d = set 3\\\"\" \"e = set 4\"\nend\nz = set done"),
         ("blank-and-labels", "a = set 1\n\n:l1\n# comment\nb = set 2\n:l2 c = set 3"),
@@ -324,8 +326,8 @@ fn handwritten() -> Vec<(&'static str, String)> {
 
 pub fn bounds(tier: Tier) -> Value {
     match tier {
-        Tier::Quick => json!({"handwritten_programs": 32, "generated_block_programs": "1-2 blocks, 3 answer tapes", "horizon_command_entries": 20, "setters": ["command itself", "second thread", "command itself on a flag nobody else holds"]}),
-        Tier::Thorough => json!({"handwritten_programs": 32, "generated_block_programs": "1-3 blocks (all forests), 4 answer tapes", "horizon_command_entries": 60, "setters": ["command itself", "second thread", "command itself on a flag nobody else holds"]}),
+        Tier::Quick => json!({"handwritten_programs": 34, "generated_block_programs": "1-2 blocks, 3 answer tapes", "horizon_command_entries": 20, "setters": ["command itself", "second thread", "command itself on a flag nobody else holds"]}),
+        Tier::Thorough => json!({"handwritten_programs": 34, "generated_block_programs": "1-3 blocks (all forests), 4 answer tapes", "horizon_command_entries": 60, "setters": ["command itself", "second thread", "command itself on a flag nobody else holds"]}),
     }
 }
 
@@ -557,7 +559,7 @@ pub fn crash_sig(_case: &Value, kind: &str) -> String {
     kind.to_string()
 }
 
-pub const RULE: &str = "programs: 32 hand-written scripts over the standard library (straight line, nested runs started by a command on the same halt flag, goto loops, while true, for-in, nested loops, error path with on_error, functions plain/scoped/in condition position, script-implemented commands, alias, scope stack; 7 of them do not terminate) and the generated block programs of C04 under fixed answer tapes; every registered command (library, flow control, harness) is re-registered behind a wrapper that logs the entry with its nesting depth and is the scheduling point. For every command entry k of the unhalted run up to the horizon, top level or nested, plus k=0 (flag set before the run), the flag is raised at that point by the command itself and, separately, by a second OS thread the wrapper hands control to over a rendezvous channel. Oracle: the halted run returns Ok; its entry log equals the unhalted log up to the end of the top-level instruction in flight; no further top-level instruction starts; returned variables and the collections behind the handle table equal those at that boundary of the unhalted run. evaluations = programs; transitions = runs; non-trivial = program with nested command entries or non-terminating. Scale cases: the flag raised 999 / 5000 (thorough also 5001 and 60000) command entries into an endless while loop, a loop nest and a loop calling a function, by the command itself and by the second thread";
+pub const RULE: &str = "programs: 34 hand-written scripts over the standard library (straight line, nested runs started by a command on the same halt flag, goto loops, while true, for-in, nested loops, error path with on_error, functions plain/scoped/in condition position, script-implemented commands, alias, scope stack; 7 of them do not terminate) and the generated block programs of C04 under fixed answer tapes; every registered command (library, flow control, harness) is re-registered behind a wrapper that logs the entry with its nesting depth and is the scheduling point. For every command entry k of the unhalted run up to the horizon, top level or nested, plus k=0 (flag set before the run), the flag is raised at that point by the command itself and, separately, by a second OS thread the wrapper hands control to over a rendezvous channel. Oracle: the halted run returns Ok; its entry log equals the unhalted log up to the end of the top-level instruction in flight; no further top-level instruction starts; returned variables and the collections behind the handle table equal those at that boundary of the unhalted run. evaluations = programs; transitions = runs; non-trivial = program with nested command entries or non-terminating. Scale cases: the flag raised 999 / 5000 (thorough also 5001 and 60000) command entries into an endless while loop, a loop nest and a loop calling a function, by the command itself and by the second thread";
 pub const ASSUMPTIONS: &[&str] = &["the setter's only visible action is one SeqCst store on the shared AtomicBool; the runner's only visible actions on it are its polls, so placing the store at every command entry plus 'before the run' covers the interleaving space at command-entry granularity", "a store landing inside a single command's Rust body is indistinguishable from a store at its entry as long as commands do not read the flag"];
 pub const EXHAUSTIVE: bool = true;
 pub const WALL_CAP_S: (u64, u64) = (55, 1500);
